@@ -148,6 +148,8 @@ def run(ctx) -> None:
             good = z == "0"
         ctx.check("R3", good, f"PART_ZERO_VALUES[{part!r}] = {z!r} is the part's zero (0 / final / empty)", f"version.PART_ZERO_VALUES[{part!r}] is not a zero value: an optional group is omitted although its part is not zero",
                   f"{part} -> {z!r} (field {fld})", loc="src/bumpver/version.py", witness={"pattern": f"YYYY.MM[.{part}]", "value": z})
+    from checks.c02 import omission_rule
+    omission_rule(ctx, "R3")
     it = prog.function("v2version._iter_reset_field_items")
     ctx.visit(it.fq)
     icfg = cfgs.get(it.fq)
